@@ -313,7 +313,21 @@ class Resolver:
             outs = wrapped
         if len(outs) == 1:
             return outs[0][1]
-        return [('alt', self._order_alts([(self._label(f, x), v, self._conds(f, x)) for x, v in outs]))]
+        return self._alt_or_opt(self._order_alts([(self._label(f, x), v, self._conds(f, x)) for x, v in outs]))
+
+    @staticmethod
+    def _alt_or_opt(alts):
+        """`match x { Some(v) => Some(quote!{..v..}), None => None }` is `x.map(|v| quote!{..v..})`: tokens present exactly when x
+        is Some — rendered as the same optional part"""
+        if len(alts) == 2:
+            empty = [a for a in alts if not a[1]]
+            full = [a for a in alts if a[1]]
+            if len(empty) == 1 and len(full) == 1 and len(full[0]) > 2 and len(empty[0]) > 2 and full[0][2] and empty[0][2]:
+                cf, lf = full[0][2][-1]
+                ce, le = empty[0][2][-1]
+                if cf == ce and cf[0] == 'discr' and lf == 'Some' and le == 'None' and full[0][2][:-1] == empty[0][2][:-1]:
+                    return [('opt', ('is_some', cf[1]), full[0][1], cf[1])]
+        return [('alt', alts)]
 
     @staticmethod
     def _order_alts(alts):
@@ -388,7 +402,7 @@ class Resolver:
                 if len(alts) == 1:
                     return alts[0][1]
                 if alts:
-                    return [('alt', self._order_alts(alts))]
+                    return self._alt_or_opt(self._order_alts(alts))
             return [('hole', e0, ty)]
         if k == 'call':
             path = e[1]
@@ -645,6 +659,18 @@ class Resolver:
                 if len(ds) == 1:
                     cur = f.expr_of_def(ds[0])
                     continue
+                if len(ds) == 2 and ty.startswith('std::vec::Vec<'):
+                    # `match x { Some(v) => <list built from v>, None => vec![] }` is `x.map(|v| <list>).unwrap_or_default()`
+                    des = [(d_, self._peel(f.expr_of_def(d_))) for d_ in ds]
+                    empty = [d_ for d_, e_ in des if e_[0] == 'call' and re.search(r'Vec::<T>::new$|Vec::<T, A>::new$', e_[1]) and not e_[2]]
+                    full = [(d_, e_) for d_, e_ in des if not (e_[0] == 'call' and re.search(r'Vec::<T>::new$|Vec::<T, A>::new$', e_[1]) and not e_[2])]
+                    if len(empty) == 1 and len(full) == 1:
+                        cf_ = self._conds(f, {'block': full[0][0][0]})
+                        ce_ = self._conds(f, {'block': empty[0][0]})
+                        if cf_ and ce_ and cf_[-1][0] == ce_[-1][0] and cf_[-1][0][0] == 'discr' and cf_[-1][1] == 'Some' and ce_[-1][1] == 'None':
+                            chain.append(('opt-map', cf_[-1][0][1]))
+                            cur = full[0][1]
+                            continue
                 break
             if cur[0] == 'call' and cur[1] in self.P.fns and self.P.fns[cur[1]].raw.get('output', '').startswith('std::vec::Vec<') and TS in self.P.fns[cur[1]].raw.get('output', ''):
                 # a helper that returns the vector of token streams: its (conditional) pushes, in the caller's terms
